@@ -155,7 +155,8 @@ def store_check(prop, model_cfgs, gen_cfgs, quick_n, thorough_n, kinds_note, inv
         drv = V.build_driver("store")
         # C08 also asks for proofs while one read of the query fails (an error or the right proof, never another proof)
         tf, index = run_driver_parallel(drv, behs, sc, extra_args=(["-readfaultqueries", "3"] if prop == "C08" else []))
-        info = V.validate_traces("StoreTrace.tla", "StoreTrace.cfg", tf, sc, timeout=3000, heap="16g")
+        info = V.validate_traces_chunked("StoreTrace.tla", "StoreTrace.cfg", tf, sc, lambda ln: bool(_RESET.search(ln[:300])),
+                                         per_chunk=1500, parallel=4, timeout=3000, heap="6g")
         if not info["consumed_ok"]:
             raise V.Infra("monitor did not consume the trace:\n" + info.get("tail", ""))
         seen = set()
